@@ -68,6 +68,12 @@ class TupleSub(tuple):
     pass
 
 
+class TLeaf:
+    """stands for a T-expression used as a VALUE (inside a literal container, or as the value itself):
+    the cell's "attributes" are the expression's (op, arg) steps in order; `decode` builds the real
+    `T[...]...` object for it, the Encoder re-encodes that object as the same cell"""
+
+
 class Scope(dict):
     """stands for the scope FRAME an S-rooted destination starts from (`scope[UP]`) in the heap
     encoding: before the call it holds the caller's scope variables; the object handed to
@@ -78,7 +84,7 @@ class Scope(dict):
 
 CLASSES = OrderedDict((c.__name__, c) for c in [
     dict, OrderedDict, DictSub, GuardDict, list, ListSub, GuardList, tuple, TupleSub, set,
-    frozenset, Obj, Obj2, ROObj, GuardObj, Scope])
+    frozenset, Obj, Obj2, ROObj, GuardObj, Scope, TLeaf])
 
 
 def layout_of(c):
@@ -100,6 +106,8 @@ def _flags(name, c):
     """behaviour flags of a class, by introspection (see lean/Glom/Model/C11.lean)"""
     if c is Scope:
         return ['scope']
+    if c is TLeaf:
+        return ['tleaf']
     fl = []
     lay = LAYOUT[name]
     if lay == 'inst':
@@ -133,7 +141,7 @@ FLAGS = {n: _flags(n, c) for n, c in CLASSES.items()}
 def class_table():
     out = []
     for n, c in CLASSES.items():
-        if c is Scope:
+        if c is Scope or c is TLeaf:
             out.append([n, [n, 'object']])
         else:
             out.append([n, [k.__name__ for k in c.__mro__]])
@@ -142,6 +150,79 @@ def class_table():
 
 def class_flags(with_scope=True):
     return [[n, FLAGS[n]] for n in CLASSES if FLAGS[n] and (with_scope or n != 'Scope')]
+
+
+def build_t(steps, dv, root=None):
+    """the real T-expression for [(op, arg_json)] steps (item / attribute steps)"""
+    from glom import T
+    t = T if root is None else root
+    for op, arg in steps:
+        t = getattr(t, dv(arg)) if op == '.' else t[dv(arg)]
+    return t
+
+
+# ------------------------------------------------------------------ user registrations
+def _raise_handler(*a):
+    raise NotImplementedError('user handler')
+
+
+def handler_table():
+    import operator
+    import glom.core as gc
+    import glom.mutation as gm
+    return {
+        'get': {'getitem': operator.getitem, '_get_sequence_item': gc._get_sequence_item, 'getattr': getattr},
+        'assign': {'setitem': operator.setitem, '_set_sequence_item': gm._set_sequence_item, 'setattr': setattr,
+                   'False': False, 'user_raise': _raise_handler},
+        'delete': {'delitem': operator.delitem, '_del_sequence_item': gm._del_sequence_item, 'delattr': delattr,
+                   'False': False, 'user_raise': _raise_handler}}
+
+
+UREG_CLASSES = ['DictSub', 'ListSub', 'Obj', 'Obj2', 'ROObj', 'OrderedDict', 'TupleSub', 'GuardObj']
+NATURAL = {'dict': ('getitem', 'setitem', 'delitem'), 'list': ('_get_sequence_item', '_set_sequence_item', '_del_sequence_item'),
+           'tuple': ('_get_sequence_item', 'False', 'False'), 'inst': ('getattr', 'setattr', 'delattr')}
+
+
+def gen_ureg(rng):
+    """registrations made on a private `Glommer` before the call: 1-3 user classes, each with explicit
+    `get` / `assign` / `delete` handlers — mostly the natural `get` (so paths through such objects
+    still read), `assign` / `delete` drawn from every handler kind (item / sequence item / attribute
+    — also the wrong one for the layout —, False = registered as unsupported, a handler of the user's
+    own that raises).  [[cls, get, assign, delete] ...], in registration order"""
+    out = []
+    for cn in rng.sample(UREG_CLASSES, rng.choice([1, 1, 2, 3])):
+        g, a, d = NATURAL[LAYOUT[cn]]
+        if rng.random() < 0.15:
+            g = rng.choice(['getitem', '_get_sequence_item', 'getattr'])
+        if rng.random() < 0.7:
+            a = rng.choice(['setitem', '_set_sequence_item', 'setattr', 'False', 'user_raise'])
+        if rng.random() < 0.7:
+            d = rng.choice(['delitem', '_del_sequence_item', 'delattr', 'False', 'user_raise'])
+        out.append([cn, g, a, d])
+    return out
+
+
+def ureg_tables(ureg):
+    """the case's `ureg` as per-op tables for the Lean side: a later registration of a class replaces
+    an earlier one, so the tables list the registrations last-first"""
+    rev = list(reversed(ureg or []))
+    return {'get': [[c, g] for c, g, a, d in rev], 'assign': [[c, a] for c, g, a, d in rev],
+            'delete': [[c, d] for c, g, a, d in rev]}
+
+
+class Runner:
+    """`glom.glom`, or the `glom` of a private Glommer on which the case's user registrations were made"""
+    def __init__(self, ureg):
+        import glom
+        self.ureg = ureg
+        if ureg:
+            ht = handler_table()
+            self.g = glom.Glommer()
+            for cn, g, a, d in ureg:
+                self.g.register(CLASSES[cn], get=ht['get'][g], assign=ht['assign'][a], delete=ht['delete'][d])
+            self.glom = self.g.glom
+        else:
+            self.glom = glom.glom
 
 
 # ------------------------------------------------------------------ codec
@@ -154,6 +235,8 @@ def decode(heap):
         lay = cell['k']
         if cls is Scope:
             objs[a] = {}
+        elif cls is TLeaf:
+            objs[a] = build_t(cell['v'], lambda j: None if j is None else list(j.values())[0])
         elif lay in ('dict', 'list', 'inst') or (lay == 'set' and cls is set):
             objs[a] = OrderedDict() if cls is OrderedDict else cls.__new__(cls)
         else:
@@ -203,7 +286,7 @@ def decode(heap):
         elif lay == 'set' and isinstance(o, set):
             for x in cell['v']:
                 o.add(dv(x))
-        elif lay == 'inst':
+        elif lay == 'inst' and cell['c'] != 'TLeaf':
             d = object.__getattribute__(o, '__dict__')
             for k, v in cell['v']:
                 d[k] = dv(v)
@@ -216,15 +299,18 @@ class Encoder:
         self.objs = []
         self.ids = {}
         self.alias = {}          # id -> class name override (the Scope cell)
+        self.fixed = {}          # id -> cell of an immutable stand-in (a T-expression used as a value)
         for o, cell in zip(objs, heap):
             self.ids[id(o)] = len(self.objs)
             self.objs.append(o)
             if cell['c'] == 'Scope':
                 self.alias[id(o)] = 'Scope'
+            elif cell['c'] == 'TLeaf':
+                self.fixed[id(o)] = cell
 
     def is_container(self, v):
         n = type(v).__name__
-        return n in CLASSES and type(v) is CLASSES[n]
+        return (n in CLASSES and type(v) is CLASSES[n]) or id(v) in self.fixed
 
     def reserve(self, v):
         """give `v` the next address without visiting its children yet"""
@@ -247,6 +333,8 @@ class Encoder:
         self._cell(v)
 
     def _cell(self, v):
+        if id(v) in self.fixed:
+            return self.fixed[id(v)]
         cn = self.alias.get(id(v), type(v).__name__)
         lay = LAYOUT[cn]
         ev = lambda x: pyobjs.enc_val(x, self.addr)
@@ -273,6 +361,8 @@ class Encoder:
     def hidden(self):
         """did Python store an attribute on a container-subclass object (invisible to its cell)?"""
         for o in self.objs:
+            if id(o) in self.fixed:
+                continue
             cn = self.alias.get(id(o), type(o).__name__)
             if LAYOUT[cn] != 'inst' and cn != 'Scope' and getattr(o, '__dict__', None):
                 return True
@@ -628,13 +718,16 @@ def gen_dest(rng, heap, root, maxlen, want_present, absent_tail, star_p=0.15, fi
     return steps
 
 
-def gen_star_case(rng, present=True):
+def gen_star_case(rng, present=True, share_p=0.0):
     """a regular nested target (2-3 levels of list / dict) whose leaves are lists / dicts / objects,
     and a destination with one `*` per level: every leaf is a match, the final step addresses an
-    existing (or absent) slot of the leaves.  Returns (heap, root, steps)."""
+    existing (or absent) slot of the leaves.  Returns (heap, root, steps).
+    share_p: probability that an entry of a level is an object that already occurs among the entries
+    of that depth (the SAME leaf / sub-container matched more than once by the wildcards)."""
     heap = []
     levels = rng.choice([1, 2, 2, 3])
     leaf_kind = rng.choice(['list', 'list', 'dict', 'inst'])
+    seen = {}          # depth -> refs generated at that depth
 
     def leaf():
         a = len(heap)
@@ -649,13 +742,19 @@ def gen_star_case(rng, present=True):
         return {'r': a}
 
     def level(d):
+        if seen.get(d) and rng.random() < share_p:
+            return dict(rng.choice(seen[d]))
         if d == 0:
-            return leaf()
+            r = leaf()
+            seen.setdefault(d, []).append(r)
+            return r
         a = len(heap)
         kind = rng.choice(['list', 'list', 'dict', 'tuple'])
         cell = {'k': kind, 'c': kind, 'v': []}
         heap.append(cell)
-        kids = [level(d - 1) for _ in range(rng.randint(1, 3))]
+        if d < levels:
+            seen.setdefault(d, []).append({'r': a})
+        kids = [level(d - 1) for _ in range(rng.randint(1, 3) if not share_p else rng.randint(2, 3))]
         if kind == 'dict':
             cell['v'] = [[{'s': 'k%d' % i}, k] for i, k in enumerate(kids)]
         else:
@@ -673,6 +772,126 @@ def gen_star_case(rng, present=True):
     return heap, root, steps
 
 
+class TemplateGen:
+    """a LITERAL container value (what a user writes in `val` position: `{'a': [T['x'], 1], 'b': shared}`):
+    cells appended to the case's heap, unreachable from the target.  Exact list / dict / tuple / set /
+    frozenset cells are what arg mode rebuilds; subclass instances and plain objects are stored as they
+    are; leaves are scalars, T-expressions (TLeaf cells: valid walks into the target, now and then a
+    failing one), references to objects of the TARGET (any kind), and references to template cells
+    generated earlier (sharing: the same container reachable by two routes) or still open (cycles
+    through a list / dict)."""
+
+    def __init__(self, rng, heap, root, maxdepth=3, tleaf_p=0.15):
+        self.rng, self.heap, self.root, self.maxdepth, self.tleaf_p = rng, heap, root, maxdepth, tleaf_p
+        self.ntarget = len(heap)
+        # objects of the target a literal may mention (the Scope cell is a stand-in, not an object)
+        self.tcells = [a for a, c in enumerate(heap) if c['c'] not in ('Scope', 'TLeaf')]
+        self.closed, self.open = [], []
+        self.shared = 0
+
+    def tleaf(self):
+        r = self.rng
+        walk, _ = valid_walk(r, self.heap[:self.ntarget], self.root, r.randint(0, 3), prefer_deep=False)
+        steps = [['.' if k == 'attr' else '[', key] for k, key in walk]
+        if r.random() < 0.08:
+            steps.append(['[', {'s': 'zz'}])
+        if not steps:
+            # `T` itself is one object: one cell
+            for a, c in enumerate(self.heap):
+                if c['c'] == 'TLeaf' and not c['v']:
+                    return {'r': a}
+        self.heap.append({'k': 'inst', 'c': 'TLeaf', 'v': steps})
+        return {'r': len(self.heap) - 1}
+
+    def node(self, depth, top=False):
+        r = self.rng
+        p = r.random()
+        if not top:
+            if depth >= self.maxdepth or p < 0.22:
+                return jval(r.choice(SCALARS))
+            if p < 0.40 and self.closed:
+                self.shared += 1
+                return {'r': r.choice(self.closed)}
+            if p < 0.46 and self.open:
+                self.shared += 1
+                return {'r': r.choice(self.open)}
+            if p < 0.46 + self.tleaf_p:
+                return self.tleaf()
+            if p < 0.54 + self.tleaf_p and self.tcells:
+                return {'r': r.choice(self.tcells)}
+        lay = r.choice(['list'] * 6 + ['dict'] * 5 + ['tuple'] * 2 + ['set', 'sub', 'inst'])
+        if top and lay in ('set', 'inst', 'sub'):
+            lay = 'list'
+        a = len(self.heap)
+        if lay == 'set':
+            items = sorted(r.sample([0, 1, 7, 'x', 'abc'], r.randint(1, 2)), key=repr)
+            self.heap.append({'k': 'set', 'c': r.choice(['set', 'frozenset']), 'v': [jval(x) for x in items]})
+            return {'r': a}
+        if lay == 'sub':
+            lay, cls = r.choice([('list', 'ListSub'), ('dict', 'DictSub'), ('dict', 'OrderedDict'), ('tuple', 'TupleSub')])
+        elif lay == 'inst':
+            cls = 'Obj'
+        else:
+            cls = lay
+        cell = {'k': lay, 'c': cls, 'v': []}
+        self.heap.append(cell)
+        cyclic = lay in ('list', 'dict', 'inst')
+        if cyclic:
+            self.open.append(a)
+        n = r.choice([1, 2, 2, 3]) if lay == 'tuple' else r.choice([0, 1, 2, 2, 3])
+        if lay == 'dict':
+            keys = r.sample(NAMES + [0, 1, '0', 'x y', None], n)
+            cell['v'] = [[jval(k), self.node(depth + 1)] for k in keys]
+        elif lay == 'inst':
+            cell['v'] = [[k, self.node(depth + 1)] for k in r.sample(NAMES, n)]
+        else:
+            cell['v'] = [self.node(depth + 1) for _ in range(n)]
+        if cyclic:
+            self.open.pop()
+        self.closed.append(a)
+        return {'r': a}
+
+
+def gen_template(rng, heap, root, maxdepth=3, tleaf_p=0.15, want_shared=True):
+    """append a literal container value to `heap`; returns its ref.  With `want_shared` a value in which
+    no container is reachable by two routes gets one more entry: a second reference to one of its own
+    list / dict cells"""
+    g = TemplateGen(rng, heap, root, maxdepth, tleaf_p)
+    top = g.node(0, top=True)
+    if want_shared and not g.shared:
+        inner = [a for a in g.closed if a != top['r'] and heap[a]['c'] in ('list', 'dict')]
+        cell = heap[top['r']]
+        if inner and cell['c'] in ('list', 'dict'):
+            tgt = {'r': rng.choice(inner)}
+            if cell['k'] == 'list':
+                cell['v'].insert(rng.randint(0, len(cell['v'])), tgt)
+            else:
+                cell['v'].append([{'s': 'sh'}, tgt])
+    return top
+
+
+def append_copy(heap, root, perturb=True):
+    """append a copy of every cell of `heap` (same shape, same keys; scalar leaves perturbed) to it —
+    a second record like the first, sharing nothing with it; returns the root of the copy"""
+    off = len(heap)
+    src = perturb_heap(heap) if perturb else json.loads(json.dumps(heap))
+
+    def sh(v):
+        return {'r': v['r'] + off} if isinstance(v, dict) and 'r' in v else v
+    for cell in src:
+        if cell['k'] == 'dict':
+            cell['v'] = [[sh(k), sh(v)] for k, v in cell['v']]
+        elif cell['c'] == 'TLeaf':
+            if not cell['v']:
+                cell = {'k': 'inst', 'c': 'Obj', 'v': []}     # `T` itself is one object: no second cell for it
+        elif cell['k'] == 'inst':
+            cell['v'] = [[k, sh(v)] for k, v in cell['v']]
+        else:
+            cell['v'] = [sh(v) for v in cell['v']]
+        heap.append(cell)
+    return sh(root)
+
+
 def perturb_heap(heap):
     """a variant of the heap with the same shape and the same keys / attribute names / lengths
     but different scalar leaves (ints + 100, strings + '~'): the same path breaks off at the
@@ -686,7 +905,9 @@ def perturb_heap(heap):
     out = []
     for cell in heap:
         c = {'k': cell['k'], 'c': cell['c']}
-        if cell['k'] == 'dict':
+        if cell['c'] == 'TLeaf':
+            c['v'] = [list(x) for x in cell['v']]
+        elif cell['k'] == 'dict':
             c['v'] = [[k, pv(v)] for k, v in cell['v']]
         elif cell['k'] == 'inst':
             c['v'] = [[k, pv(v)] for k, v in cell['v']]
